@@ -292,6 +292,7 @@ func (a astMap) EachSafe(fn func(string, int)) {
 	a.m.EachSafe(func(k string, n jschema.ASTNode) { fn(k, atoi(n.Value)) })
 }
 func (a astMap) JSON() ([]byte, error) { return a.m.MarshalJSON() }
+
 var valJSONCache sync.Map
 
 func (a astMap) ValueJSON(k string, v int) string {
@@ -596,9 +597,11 @@ type result struct {
 	exhaustiveLong bool
 }
 
-// kinds exercised on the long exhaustive sequences (length >= 5): one per
-// generated type plus the pre-sized RuleASTNodes (append aliasing differs).
+// kinds exercised on the long exhaustive sequences: length 5: one per
+// generated type plus the pre-sized RuleASTNodes (append aliasing differs);
+// length 6: one per generated type.  (schema.Constraints always.)
 var mapKindsLong = []string{"ASTNodes", "RuleASTNodes/zero", "RuleASTNodes/Make8"}
+var mapKindsLongest = []string{"ASTNodes", "RuleASTNodes/zero"}
 
 func sameObs(a, b []string) bool {
 	if len(a) != len(b) {
@@ -618,7 +621,9 @@ func evalSeq(ops []string, wantModel bool, nmut int) result {
 	ref, nontrivial := runRef(ops)
 	res := result{nontrivial: nontrivial}
 	kinds, deep := mapKinds, true
-	if nmut >= 5 {
+	if nmut >= 6 {
+		kinds, deep = mapKindsLongest, false
+	} else if nmut >= 5 {
 		kinds, deep = mapKindsLong, false
 	}
 	if nmut < 0 || nmut <= 3 {
@@ -875,7 +880,7 @@ func Run(args []string) {
 	}
 	wg.Wait()
 	rep.Stats["random_sequences"] = nRandom
-	rep.Stats["map_kinds_per_sequence"] = len(mapKinds) + 1
+	rep.Extra["maps_per_sequence"] = "length<=4 and random: ASTNodes, RuleASTNodes x4 constructors, Constraints; length 5: 3 public + Constraints; length 6: 2 public + Constraints"
 	mu.Lock()
 	flushModel(true)
 	mu.Unlock()
